@@ -397,7 +397,7 @@ def explore(ctx):
             base.run()
             npts = len(base.points)
             idxs = range(npts)
-            if bound == 2 and bs not in ('fire||fire', 'fire||fire(G1)'):
+            if bound == 2 and bs not in ('fire||fire', 'fire||fire(G1)', 'sight||sight', 'sightrow||display'):      # two pre-emptions where the bodies are short enough
                 bound_here = 1
             else:
                 bound_here = bound
